@@ -72,7 +72,13 @@ class KNXIPTransport(ABC):
         # iterate over a copy - a callback may unregister itself (eg. by stopping the transport)
         for callback in tuple(self.callbacks):
             if callback.has_service(knxipframe.header.service_type_ident):
-                callback.callback(knxipframe, source, self)
+                try:
+                    callback.callback(knxipframe, source, self)
+                except CommunicationError as err:
+                    # eg. an answer to a frame that follows the one which closed this transport
+                    knx_logger.debug(
+                        "Could not process %s from %s: %s", knxipframe, source, err
+                    )
                 handled = True
         if not handled:
             knx_logger.debug(
